@@ -82,7 +82,9 @@ class IOWorld(Machine):
                        "unicode_label", "spelling_0", "spelling_1", "spelling_2", "spelling_3", "spelling_4", "spelling_5", "spelling_6", "spelling_7",
                        "clean_path_read_back_later", "path_reduce_restored", "pts_roundtrip", "empty_edge_set",
                        "pts_large_coordinates", "masked_image_export", "explicit_extension_kwarg", "empty_preexisting_file", "exact_zero_coordinates",
-                       "upper_case_extension", "pickled_transform_was_applied_before", "label_with_lone_surrogate")
+                       "upper_case_extension", "pickled_transform_was_applied_before", "label_with_lone_surrogate",
+                       "import_of_a_picture_written_by_another_program", "label_that_selects_no_point",
+                       "label_redefined_after_serialisation")
 
     @classmethod
     def swarm(cls, rng, tier):
@@ -278,7 +280,26 @@ class IOWorld(Machine):
                 if not cover.all() or not lab:
                     lab["rest_" + names[int(g.randint(6))]] = ~cover if lab else np.ones(m, dtype=bool)
                 self.ctx.probe("unicode_label")
+                if seed % 6 == 1:
+                    # an optional part that is not annotated on this shape: a label that selects no point
+                    lab2 = OrderedDict()
+                    for j_, (nm_, mk_) in enumerate(lab.items()):
+                        if j_ == (seed // 6) % len(lab):
+                            lab2["optional"] = np.zeros(m, dtype=bool)
+                        lab2[nm_] = mk_
+                    lab = lab2
+                    self.ctx.probe("label_that_selects_no_point")
                 o = LabelledPointUndirectedGraph(pts, o.adjacency_matrix, lab)
+                if seed % 5 == 2:
+                    # a group with a history: it was serialised once, then one of its labels was given other points
+                    first = next(iter(lab))
+                    try:
+                        o.tojson()
+                        o = o.add_label(first, list(range(m)))
+                        lab[first] = np.ones(m, dtype=bool)
+                        self.ctx.probe("label_redefined_after_serialisation")
+                    except Exception as ex:
+                        self.ctx.fail("roundtrip", "add_label_raised", repr(ex))
                 self._labels_of[(tuple(lab), pts.tobytes())] = [(nm, np.nonzero(mk)[0].tolist()) for nm, mk in lab.items()]
             return o
         if k == "pug_empty":
@@ -710,33 +731,44 @@ class IOWorld(Machine):
         """import (normalize=True) -> export -> re-import: eight-bit data unchanged."""
         ctx = self.ctx
         src = self._pick_existing(op, want=("img",))
-        if src is None:
-            return []
+        made = []
+        if src is None or op["seed"] % 3 == 0:
+            # a picture that some other program wrote (a binary PPM, put together by hand: nothing in this process
+            # has touched the imaging library on its behalf) - the usual first step of a session is an import
+            g = rs(op["seed"] ^ 0xF0)
+            h, w = int(g.randint(1, 7)), int(g.randint(1, 7))
+            data = g.randint(0, 256, size=(3, h, w)).astype(np.uint8)
+            src = DIRS[op["dir"] % 2] + STEMS[(op["stem"] + 1) % 4] + ".ppm"
+            with self.fs._orig_open(os.path.join(self.root, src), "wb") as f:
+                f.write(b"P6\n%d %d\n255\n" % (w, h) + np.moveaxis(data, 0, -1).tobytes())
+            self.model[src] = ("clean", "img", ("u8", data))
+            ctx.probe("import_of_a_picture_written_by_another_program")
+            made = [src]
         tag, data = self.model[src][2]
         if tag not in ("u8float", "u8"):
-            return []
+            return made
         ext = IMG_EXTS[op["ext"] % len(IMG_EXTS)]
         if (ext.lower() == ".ppm" and data.shape[0] != 3) or (ext.lower() == ".pgm" and data.shape[0] != 1):
             ext = ".png"
         dst = self.relname(op, ext)
         if dst == src:
-            return []
+            return made
         existed = dst in before
         res, exc, fired = self.guarded(op, lambda: mio.export_image(
             mio.import_image(self.spelled(src, 2), landmark_resolver=None), self.spelled(dst, op["spell"]), overwrite=True))
         if fired:
             if os.path.exists(os.path.join(self.root, dst)):
                 self.model[dst] = ("dirty",)
-            return [dst]
+            return made + [dst]
         if exc is not None:
             ctx.fail("roundtrip", "import_export_raised_image", "import(normalize=True) of %r then export to %r raised %r" % (src, dst, exc))
             if os.path.exists(os.path.join(self.root, dst)):
                 self.model[dst] = ("dirty",)
-            return [dst]
+            return made + [dst]
         self.model[dst] = ("clean", "img", ("u8", data))
         ctx.probe("import_export_reimport")
         self._check_image(dst, ("u8", data), "re-")
-        return [dst]
+        return made + [dst]
 
     # ---- environment events
     def _op_env_foreign(self, op, before):
